@@ -191,3 +191,45 @@ func H_C16_docx_vmerge_by_grid_column() {
 	}
 	vReach("end")
 }
+
+// H_C02_docx_inconsistent_table: a table whose rows do not agree with its declared grid or with each other - a dropped
+// gridCol, a duplicated cell, an inflated gridSpan, merges that overlap - never crashes parsing or rendering.
+//
+//symgo:harness prop=C02 kernel=docx.TableParser-inconsistent-grid
+//symgo:desc harness-built tableXML: tblGrid with 0..3 gridCol entries (enumerated); 2 rows of 1..3 cells (enumerated); in the first two cells of each row gridSpan is enumerated over {absent, 2, 7}, in the first cell vMerge over {absent, restart, continue}: ParseTable, ToMarkdown, ToText and ToModelTable return without a run-time panic
+func H_C02_docx_inconsistent_table() {
+	var tbl tableXML
+	for i, n := 0, vAnyIntIn(0, 3); i < n; i++ {
+		tbl.Grid.Cols = append(tbl.Grid.Cols, gridColXML{W: "2000"})
+	}
+	for r := 0; r < 2; r++ {
+		var row tableRowXML
+		for c, n := 0, vAnyIntIn(1, 3); c < n; c++ {
+			var cell tableCellXML
+			if c < 2 {
+				switch vAnyIntIn(0, 2) {
+				case 1:
+					cell.Properties.GridSpan.Val = "2"
+				case 2:
+					cell.Properties.GridSpan.Val = "7"
+				}
+			}
+			if c == 0 {
+				switch vAnyIntIn(0, 2) {
+				case 1:
+					cell.Properties.VMerge = vMergeXML{XMLName: xml.Name{Local: "vMerge"}, Val: "restart"}
+				case 2:
+					cell.Properties.VMerge = vMergeXML{XMLName: xml.Name{Local: "vMerge"}}
+				}
+			}
+			cell.Paragraphs = []paragraphXML{vPara("t")}
+			row.Cells = append(row.Cells, cell)
+		}
+		tbl.Rows = append(tbl.Rows, row)
+	}
+	pt := NewTableParser(nil).ParseTable(tbl)
+	_ = pt.ToMarkdown()
+	_ = pt.ToText()
+	_ = pt.ToModelTable()
+	vReach("end")
+}
